@@ -155,6 +155,75 @@ def _call(model, modname, fname, args):
     return it.call(fn, list(args), {})
 
 
+def _field_operators(model, rep):
+    """Operator protocol of the autodiff field wrapper: ``u op c`` must be
+    value(u) op c and the reflected method ``c op u`` must be c op value(u),
+    for a plain operand and for another field.  Each dunder is interpreted
+    with symbolic values a (self) and b (other); for the non-commutative
+    operators the two orders are different polynomials / rational
+    functions, so an exchanged reflected method cannot pass."""
+    R4 = "C20-R4"
+    AD = "skfem.autodiff"
+    cls = model.cls(AD, "JaxDiscreteField")
+    a, b = Poly.sym("a"), Poly.sym("b")
+    table = {
+        "__add__": ("a + b", lambda: a + b),
+        "__radd__": ("b + a", lambda: b + a),
+        "__sub__": ("a - b", lambda: a - b),
+        "__rsub__": ("b - a", lambda: b - a),
+        "__mul__": ("a * b", lambda: a * b),
+        "__rmul__": ("b * a", lambda: b * a),
+        "__truediv__": ("a / b", lambda: ("div", a, b)),
+        "__rtruediv__": ("b / a", lambda: ("div", b, a)),
+        "__neg__": ("-a", lambda: -a),
+    }
+
+    def norm(v):
+        """value as (numerator, denominator) polynomials"""
+        if isinstance(v, tuple) and v and v[0] == "div":
+            return v[1], v[2]
+        if isinstance(v, Rat):
+            return v.n, v.d
+        return Poly.coerce(v), Poly.const(1)
+    n = 0
+    for name, fn in sorted(cls.methods.items()):
+        if name not in table:
+            continue
+        text, want = table[name]
+        wn, wd = norm(want())
+        for kind in ("plain operand", "field operand"):
+            n += 1
+            self_obj = Obj(cls, {"value": a})
+            other = b if kind == "plain operand" else Obj(cls, {"value": b})
+            cons = f"JaxDiscreteField.{name}[{kind}]"
+            args = [] if name == "__neg__" else [other]
+            try:
+                got = Interp(model).call(fn, args, {}, self_obj=self_obj)
+            except Raised as e:
+                rep.fail(R4, fn.path, fn.short(), cons,
+                         f"raises {e.what}", fn.lineno)
+                continue
+            except Unsupported as e:
+                raise AnalysisError(f"{cons}: outside grammar: {e}")
+            try:
+                gn, gd = norm(got)
+                same = gn * wd == wn * gd
+            except Exception:
+                same = False
+            if same:
+                rep.ok(R4, cons, f"= {text} on the values")
+            else:
+                rep.fail(R4, fn.path, fn.short(), cons,
+                         f"evaluates to {got} where {text} is meant (a = "
+                         f"value of the field, b = the other operand): the "
+                         f"integrand the user wrote and the residual / "
+                         f"Jacobian that are differentiated are different "
+                         f"functions", fn.lineno)
+    if n < 12:
+        raise AnalysisError(f"only {n} operator obligations on "
+                            f"JaxDiscreteField")
+
+
 def run(model: Model, rep, tier: str) -> None:
     rep.rule("C20-R1", "helper(result on generic n x n tensors) == its "
              "mathematical definition, as polynomial identity in the entries")
@@ -165,6 +234,9 @@ def run(model: Model, rep, tier: str) -> None:
     rep.rule("C20-R3", "autodiff producer: Jacobian slot (direction j, test "
              "i) -> row DOFs of i, column DOFs of j, one dx and quadrature "
              "sum; residual negated")
+    rep.rule("C20-R4", "operator methods of the autodiff field wrapper "
+             "compute value(u) op c, reflected ones c op value(u)")
+    _field_operators(model, rep)
     results: Dict[tuple, Any] = {}
     for n in (2, 3):
         sp = specs(n)
@@ -242,7 +314,23 @@ def run(model: Model, rep, tier: str) -> None:
 
 
 _H, _J = "skfem/helpers.py", "skfem/autodiff/helpers.py"
+_AD = "skfem/autodiff/__init__.py"
 MUTANTS = [
+    ("reflected division written like the direct one",
+     (_AD, "            return other.value / self.value\n"
+      "        return other / self.value",
+      "            return self.value / other.value\n"
+      "        return self.value / other"), "C20-R4"),
+    ("reflected subtraction written like the direct one",
+     (_AD, "            return other.value - self.value\n"
+      "        return other - self.value",
+      "            return self.value - other.value\n"
+      "        return self.value - other"), "C20-R4"),
+    ("product with a field takes the field object, not its value",
+     (_AD, "            return self.value * other.value\n"
+      "        return self.value * other\n\n    def __rmul__",
+      "            return self.value * other.value\n"
+      "        return self.value + other\n\n    def __rmul__"), "C20-R4"),
     ("jax det: doubled minus sign restored",
      (_J, "                - A[0, 1] * (A[1, 0] * A[2, 2]\n"
       "                             - A[1, 2] * A[2, 0])",
